@@ -6,15 +6,7 @@ package main
 import (
 	"bytes"
 	"encoding/json"
-	"fmt"
-	"io/ioutil"
-	"os/exec"
-	"path/filepath"
-	"reflect"
-	"strings"
 
-	"github.com/samsarahq/thunder/diff"
-	"github.com/samsarahq/thunder/merge"
 	"verifharness/pkg/vh"
 )
 
@@ -26,6 +18,8 @@ type Case struct {
 	Exotic   bool        `json:"exotic,omitempty"`   // oracle only: fractional floats and []byte leaves (outside the model)
 	Shared   bool        `json:"shared"`             // old and new share unchanged sub-values by pointer
 	Origin   string      `json:"origin"`
+	Typing   *Typing     `json:"typing,omitempty"` // per-leaf Go types (typed.go); compared with the generic model only
+	Fuzz     *FuzzCase   `json:"fuzz,omitempty"`   // a (previous value, delta) pair for the two merges (fuzz.go); Old/New unused
 }
 
 var fieldNames = []string{"a", "b", "c", "d", "$", "0", "1", "id"}
@@ -486,306 +480,3 @@ func depthOf(v interface{}) int {
 	return 0
 }
 
-type obs struct {
-	c        Case
-	delta    interface{} // after round trip; nil = no diff
-	hasDelta bool
-	goOut    interface{}
-	goErr    string
-	stripOld interface{}
-	stripNew interface{}
-	jsOut    interface{}
-	jsErr    string
-	exotic   bool
-}
-
-func safeDiff(a, b interface{}) (d interface{}, p string) {
-	defer func() {
-		if e := recover(); e != nil {
-			p = fmt.Sprint(e)
-		}
-	}()
-	return diff.Diff(a, b), ""
-}
-func safeMerge(a, b interface{}) (d interface{}, err string) {
-	defer func() {
-		if e := recover(); e != nil {
-			err = "panic: " + fmt.Sprint(e)
-		}
-	}()
-	r, e := merge.Merge(a, b)
-	if e != nil {
-		return nil, e.Error()
-	}
-	return r, ""
-}
-
-func main() {
-	o := vh.ParseFlags()
-	run := vh.NewRun("C03", o)
-	run.Rule = "pairs (old,new): 70% new = seeded mutation of old (field add/remove/retype, list insert/delete/swap/duplicate/truncate/rotate/reverse, __key change, scalar<->complex), 15% independent values, 15% identical; non-trivial = delta is non-empty and (old,new) not seen before; distinct by JSON text of the pair"
-	r := vh.NewRng(o.Seed)
-
-	var cases []Case
-	searching := o.Search != ""
-	if searching {
-		// failing-input search: variants of the cases on which model and implementation disagreed
-		var seeds []Case
-		if b, err := ioutil.ReadFile(o.Search); err == nil {
-			for _, line := range strings.Split(string(b), "\n") {
-				var w struct {
-					Case Case `json:"case"`
-				}
-				if strings.TrimSpace(line) != "" && json.Unmarshal([]byte(line), &w) == nil {
-					seeds = append(seeds, w.Case)
-				}
-			}
-		}
-		for i := 0; i < o.N; i++ {
-			cr := r.Fork()
-			if len(seeds) == 0 {
-				old := genValue(cr, 2)
-				cases = append(cases, Case{Old: old, New: deepCopy(mutate(cr, old, 2)), Origin: "search-fresh"})
-				continue
-			}
-			sd := seeds[cr.Intn(len(seeds))]
-			c := Case{Old: deepCopy(sd.Old), New: deepCopy(sd.New), IntTyped: sd.IntTyped, NumType: sd.NumType, Origin: "search"}
-			for k := 1 + cr.Intn(2); k > 0; k-- {
-				switch cr.Intn(6) {
-				case 0, 1:
-					c.New = leafEdit(cr, c.New)
-				case 2:
-					c.Old = leafEdit(cr, c.Old)
-				case 3:
-					c.New = deepCopy(mutate(cr, c.New, 2))
-				case 4:
-					c.Old = deepCopy(mutate(cr, c.Old, 2))
-				default:
-					c.Old, c.New = c.New, c.Old
-				}
-			}
-			if c.IntTyped && (!allFit(c.NumType, c.Old) || !allFit(c.NumType, c.New)) {
-				c.NumType = "int64"
-			}
-			cases = append(cases, c)
-		}
-	} else if o.Replay != "" {
-		var c Case
-		if vh.ReadReplayCase(o.Replay, &c) {
-			c.Origin = "replay"
-			cases = append(cases, c)
-		}
-	} else {
-		for _, f := range vh.CorpusFiles(o.Corpus) {
-			var c Case
-			if vh.ReadReplayCase(f, &c) {
-				c.Origin = "corpus:" + filepath.Base(f)
-				cases = append(cases, c)
-			}
-		}
-		for i := 0; i < o.N; i++ {
-			cr := r.Fork()
-			depth := 1 + cr.Intn(3)
-			old := genValue(cr, depth)
-			var c Case
-			switch k := cr.Intn(100); {
-			case k < 4:
-				// deep, narrow values: a spine of 20..200 nested objects / arrays above a small value; the new value
-				// is an equal copy or differs only at the bottom (recursion limits, per-level costs)
-				d := 20 + cr.Intn(60)
-				if cr.Chance(40) {
-					d = 80 + cr.Intn(121)
-				}
-				o, n := genSpine(cr, d)
-				c = Case{Old: o, New: n, Origin: "deep"}
-			case k < 70:
-				c = Case{Old: old, New: mutate(cr, old, depth), Shared: true, Origin: "mutation"}
-			case k < 85:
-				c = Case{Old: old, New: genValue(cr, depth), Origin: "independent"}
-			default:
-				c = Case{Old: old, New: old, Shared: true, Origin: "identical"}
-			}
-			if !c.Shared || cr.Chance(30) {
-				c.New = deepCopy(c.New)
-				c.Shared = false
-			}
-			c.IntTyped = cr.Chance(35)
-			if c.IntTyped {
-				c.NumType = numTypes[cr.Intn(len(numTypes))]
-				if !allFit(c.NumType, c.Old) || !allFit(c.NumType, c.New) {
-					c.NumType = "int64"
-				}
-			} else if cr.Chance(8) {
-				c.Exotic = true
-			}
-			cases = append(cases, c)
-		}
-	}
-
-	var all []*obs
-	var jsIn bytes.Buffer
-	var jsIdx []int
-	for idx, c := range cases {
-		run.LogCase(idx, c)
-		ob := &obs{c: c}
-		all = append(all, ob)
-		old, nw := c.Old, c.New
-		if c.IntTyped {
-			nt := c.NumType
-			if nt == "" {
-				nt = "int64"
-			}
-			// conversion keeps sharing only when old and new are the same object
-			if c.Shared && reflect.DeepEqual(old, nw) && c.Origin == "identical" {
-				old = toNums(nt, old)
-				nw = old
-			} else {
-				old, nw = toNums(nt, old), toNums(nt, nw)
-			}
-			run.Hist("numtype:" + nt)
-		} else if c.Exotic {
-			old, nw = exotic(old, false), exotic(nw, false)
-			ob.exotic = true
-			run.Hist("exotic")
-		}
-		oldCopy, newCopy := deepCopy(old), deepCopy(nw)
-		d, p := safeDiff(old, nw)
-		if p != "" {
-			run.Fail(idx, "diff-panic", p, c)
-			continue
-		}
-		if !reflect.DeepEqual(old, oldCopy) || !reflect.DeepEqual(nw, newCopy) {
-			run.Fail(idx, "diff-modifies-arguments", "", c)
-		}
-		if sd, _ := safeDiff(old, old); sd != nil {
-			run.Fail(idx, "self-diff-nonempty", "Diff(old,old)="+js(sd), c)
-		}
-		if sd, _ := safeDiff(nw, deepCopy(nw)); sd != nil {
-			run.Fail(idx, "self-diff-nonempty", "Diff(new,copy new)="+js(sd), c)
-		}
-		ob.stripOld, _ = roundTrip(diff.StripKey(old))
-		ob.stripNew, _ = roundTrip(diff.StripKey(nw))
-		run.Hist("origin:" + strings.SplitN(c.Origin, ":", 2)[0])
-		switch dd := depthOf(c.New); {
-		case dd >= 80:
-			run.Hist("depth:80+")
-		case dd >= 20:
-			run.Hist("depth:20-79")
-		case dd >= 5:
-			run.Hist("depth:5-19")
-		default:
-			run.Hist(fmt.Sprintf("depth:%d", dd))
-		}
-		key := js(c.Old) + "|" + js(c.New)
-		if d == nil {
-			run.Hist("delta:nil")
-			run.Count(key, false)
-			if !reflect.DeepEqual(ob.stripOld, ob.stripNew) {
-				run.Fail(idx, "nil-delta-but-different", "", c)
-			}
-			continue
-		}
-		ob.hasDelta = true
-		rt, err := roundTrip(d)
-		if err != nil {
-			run.Fail(idx, "delta-not-serialisable", err.Error(), c)
-			continue
-		}
-		ob.delta = rt
-		if m, ok := rt.(map[string]interface{}); ok {
-			if _, has := m["$"]; has {
-				run.Hist("delta:top-reorder")
-			}
-			run.Hist("delta:object")
-		} else {
-			run.Hist("delta:replace")
-		}
-		if strings.Contains(js(rt), "\"$\":") {
-			run.Hist("delta:has-reorder")
-		}
-		run.Count(key, true)
-		run.Sample(map[string]interface{}{"old": c.Old, "new": c.New, "delta": rt})
-		ob.goOut, ob.goErr = safeMerge(deepCopy(ob.stripOld), deepCopy(rt))
-		if ob.goErr != "" {
-			run.Fail(idx, "go-merge-error", ob.goErr+" delta="+js(rt), c)
-		} else {
-			g, _ := roundTrip(ob.goOut)
-			ob.goOut = g
-			if !reflect.DeepEqual(g, ob.stripNew) {
-				run.Fail(idx, "go-merge-mismatch", "merged="+js(g)+" want="+js(ob.stripNew)+" delta="+js(rt), c)
-			}
-		}
-		jsIn.WriteString(js([]interface{}{ob.stripOld, rt}) + "\n")
-		jsIdx = append(jsIdx, idx)
-	}
-
-	// JavaScript client
-	cmd := exec.Command("node", filepath.Join(o.Verif, "tools/js/run_merge.js"), o.Repo)
-	cmd.Stdin = &jsIn
-	outb, err := cmd.Output()
-	if err != nil {
-		run.Fail(-1, "js-runner-failed", err.Error(), nil)
-	} else {
-		lines := strings.Split(strings.TrimSpace(string(outb)), "\n")
-		for k, idx := range jsIdx {
-			if k >= len(lines) {
-				break
-			}
-			var res struct {
-				Ok  interface{} `json:"ok"`
-				Err string      `json:"err"`
-			}
-			json.Unmarshal([]byte(lines[k]), &res)
-			ob := all[idx]
-			if res.Err != "" {
-				ob.jsErr = res.Err
-				run.Fail(idx, "js-merge-error", res.Err, ob.c)
-				continue
-			}
-			ob.jsOut = res.Ok
-			if !reflect.DeepEqual(res.Ok, ob.stripNew) {
-				run.Fail(idx, "js-merge-mismatch", "merged="+js(res.Ok)+" want="+js(ob.stripNew)+" delta="+js(ob.delta), ob.c)
-			}
-		}
-	}
-
-	if searching {
-		run.Finish()
-		return
-	}
-	// Coq cases
-	const shard = 300
-	var terms []string
-	start := 0
-	flush := func(end int) {
-		if len(terms) == 0 {
-			return
-		}
-		run.WriteCasesV(fmt.Sprintf("cases_%d.v", start), []string{"Lib.Json", "DiffMerge.Model"}, "", "mismatches_from_sparse", 0, terms)
-		terms = nil
-		start = end
-	}
-	for idx, ob := range all {
-		if ob.exotic || (ob.hasDelta && (ob.delta == nil || ob.jsErr != "")) {
-			continue // outside the model, or failures already reported; nothing comparable
-		}
-		oldT, _ := roundTrip(ob.c.Old)
-		newT, _ := roundTrip(ob.c.New)
-		goT := "None"
-		if ob.hasDelta && ob.goErr == "" {
-			goT = "(Some " + vh.CoqJSON(ob.goOut) + ")"
-		}
-		jsT := "JNull"
-		if ob.hasDelta {
-			jsT = vh.CoqJSON(ob.jsOut)
-		}
-		terms = append(terms, fmt.Sprintf("(%d, mk_case %s %s %s %s %s)", idx, vh.CoqJSON(oldT), vh.CoqJSON(newT),
-			vh.CoqOpt(vh.CoqJSON(ob.delta), ob.hasDelta), goT, jsT))
-		if len(terms) >= shard {
-			flush(idx + 1)
-		}
-	}
-	flush(len(all))
-	run.Finish()
-	_ = ioutil.Discard
-}
